@@ -1,9 +1,15 @@
 #!/bin/bash
 # create a scratch worktree of /repo HEAD with a hard-linked copy of /repo's prebuilt target dir
+# (build-script output directories are written in place by a re-run build script, so the small ones are really copied: a hard link
+# would let the worktree rewrite /repo/target's copy, e.g. ckb-resource's bundled.rs with the worktree's paths)
 set -e
 D=$1
 git -C /repo worktree add -q "$D" HEAD
 mkdir -p "$D/target/debug"
-for s in deps build .fingerprint; do cp -al /repo/target/debug/$s "$D/target/debug/$s"; done
+for s in deps .fingerprint; do cp -al /repo/target/debug/$s "$D/target/debug/$s"; done
+mkdir -p "$D/target/debug/build"
+for b in /repo/target/debug/build/*; do
+  if [ "$(du -sm "$b" | cut -f1)" -gt 60 ]; then cp -al "$b" "$D/target/debug/build/"; else cp -a "$b" "$D/target/debug/build/"; fi
+done
 mkdir -p "$D/_seed"
 echo "$D ready"
